@@ -33,6 +33,7 @@ class Module:
             self.tree = ast.parse(self.text)
         except SyntaxError as e:
             raise SourceError(f'cannot parse {self.path}: {e}')
+        self.data_sha = _data_sha(self.tree)
         self.imports = {}        # local name -> ('module', dotted) | ('name', dotted_module, attr)
         self.assigns = {}        # module-level simple assignments name -> ast expr (last one wins)
         self.functions = {}      # qualname -> FunctionDef
@@ -111,6 +112,24 @@ def dotted_to_relpath(dotted):
     if os.path.isfile(os.path.join(REPO, p, '__init__.py')):
         return os.path.join(p, '__init__.py')
     return None
+
+
+def _data_sha(tree):
+    """hash of the parts of a module that are not function bodies: module-level statements, class headers and class-level statements"""
+    parts = []
+    for n in tree.body:
+        if isinstance(n, (ast.FunctionDef, ast.AsyncFunctionDef)):
+            parts.append('def ' + n.name + '(' + ast.dump(n.args) + ')' + ''.join(ast.dump(d) for d in n.decorator_list))
+        elif isinstance(n, ast.ClassDef):
+            parts.append('class ' + n.name + ''.join(ast.dump(b) for b in n.bases) + ''.join(ast.dump(d) for d in n.decorator_list))
+            for m in n.body:
+                if isinstance(m, (ast.FunctionDef, ast.AsyncFunctionDef)):
+                    parts.append('  def ' + m.name + '(' + ast.dump(m.args) + ')' + ''.join(ast.dump(d) for d in m.decorator_list))
+                else:
+                    parts.append('  ' + ast.dump(m))
+        else:
+            parts.append(ast.dump(n))
+    return hashlib.sha256('\n'.join(parts).encode()).hexdigest()[:16]
 
 
 def func_hash(fn):
